@@ -154,7 +154,7 @@ func builtinDateParse(call FunctionCall) Value {
 }
 
 func builtinDateUTC(call FunctionCall) Value {
-	return float64Value(newDateTime(call.ArgumentList, time.UTC))
+	return float64Value(timeClip(newDateTime(call.ArgumentList, time.UTC)))
 }
 
 func builtinDateNow(call FunctionCall) Value {
